@@ -231,7 +231,7 @@ def programs(draw, max_ops: int = 4, allow_xr: bool = True, ops_pool: list[str] 
         elif kind == "arith_scalar":
             prog["ops"].append(["arith_scalar", draw(st.sampled_from(ARITH)), draw(st.sampled_from([2, 3, 0.5, -1]))])
         elif kind == "arith_action":
-            prog["ops"].append(["arith_action", draw(st.sampled_from(ARITH)), draw(st.sampled_from(sorted(UNARY) + ["self"])),
+            prog["ops"].append(["arith_action", draw(st.sampled_from(ARITH)), draw(st.sampled_from(sorted(UNARY) + ["self", "transposed"])),
                                 draw(st.booleans())])
         elif kind == "transform":
             ks = draw(st.lists(st.integers(-2, 2), min_size=1, max_size=3))
@@ -444,7 +444,17 @@ def apply_op(a, m: Model, op: list, src_xr: bool, hooks=None):
         return res, Model(M2, m.dims, m.coords), tags
     if k == "arith_action":
         _k, f, of, shift = op
-        other = a if of == "self" else a.map(UNARY[of])
+        if of == "transposed":
+            # the same nodes (one map further) held in an array whose dimensions come in the reverse order: operands are matched
+            # by dimension NAME, the order in which an action happens to hold its dimensions is not part of what it denotes
+            of = "add1"
+            other = a.map(UNARY[of])
+            if len(a.nodes.dims) >= 2:
+                other = fluent.Action(other.nodes.transpose(*reversed(other.nodes.dims)))
+                tags.append("operand_dims_in_other_order")
+            shift = False
+        else:
+            other = a if of == "self" else a.map(UNARY[of])
         labelled = [d for d in m.dims if d in a.nodes.coords]
         if shift and of != "self" and labelled:
             # an operand whose coordinate *values* differ (same shape): documented to be matched by position
